@@ -597,3 +597,167 @@ Proof.
     apply A; vm_compute; auto.
   - repeat split; vm_compute; reflexivity.
 Qed.
+
+(* ================= Part 7: encrypted files -- the expansion of the object streams after decryption ================= *)
+(* what follows the parallel phase is a function of its result: the whole load is schedule independent *)
+Theorem full_par_eq_seq c f s : file_wf f -> sched_valid f s -> load_full_par c s f = load_full_seq c f.
+Proof. intros W V. unfold load_full_par, load_full_seq. rewrite (par_eq_seq f s W V). reflexivity. Qed.
+
+Lemma merge_as_in_order xc bl base : merge xc bl base = merge_in_order xc (sort_blocks bl) base.
+Proof. reflexivity. Qed.
+
+(* a list of blocks whose keys never decrease is left alone by the (stable) sort *)
+Lemma sort_blocks_id_le bl : StronglySorted N.le (map fst bl) -> sort_blocks bl = bl.
+Proof.
+  induction bl as [|b bl IH]; cbn [map sort_blocks fold_right]; [reflexivity|].
+  intro H. inversion H as [|? ? Hs Hf]; subst. fold (sort_blocks bl). rewrite (IH Hs).
+  destruct bl as [|c bl]; cbn [insert_block]; [reflexivity|].
+  cbn [map] in Hf. inversion Hf as [|? ? Hle _]; subst. apply N.leb_le in Hle. rewrite Hle. reflexivity.
+Qed.
+
+Lemma expand_block_cases c e : expand_block c e = [] \/ exists ms, expand_block c e = [(fst (fst e), ms)].
+Proof.
+  unfold expand_block. destruct (snd e) as [| | | | | | | |d ct|]; auto.
+  destruct (has_type d K_ObjStm); auto. destruct (c_objstm c d ct); eauto.
+Qed.
+
+Lemma expand_keys_incl c m k : In k (map fst (expand_blocks c m)) -> exists id, In id (map fst m) /\ fst id = k.
+Proof.
+  induction m as [|e m IH]; cbn [expand_blocks flat_map map In]; [tauto|].
+  fold (expand_blocks c m). rewrite map_app, in_app_iff. intros [H|H].
+  - destruct (expand_block_cases c e) as [E|[ms E]]; rewrite E in H; cbn in H; [contradiction|].
+    destruct H as [<-|[]]. exists (fst e). auto.
+  - destruct (IH H) as (id & Hi & Hk). exists id. auto.
+Qed.
+
+Lemma olt_fst_le a b : olt a b -> (fst a <= fst b)%N.
+Proof. unfold olt. rewrite oid_ltb_lt. lia. Qed.
+
+(* the objects map is iterated by (number, generation): the container numbers never decrease *)
+Lemma expand_keys_sorted c m : msorted m -> StronglySorted N.le (map fst (expand_blocks c m)).
+Proof.
+  unfold msorted. induction m as [|e m IH]; cbn [expand_blocks flat_map map]; intro S; [constructor|].
+  fold (expand_blocks c m). inversion S as [|? ? Ss Sf]; subst. specialize (IH Ss).
+  destruct (expand_block_cases c e) as [E|[ms E]]; rewrite E; cbn [app map fst]; [exact IH|].
+  constructor; [exact IH|]. apply Forall_forall. intros k Hk.
+  destruct (expand_keys_incl c m k Hk) as (id & Hi & <-). rewrite Forall_forall in Sf. apply olt_fst_le, Sf, Hi.
+Qed.
+
+(* consistency with the reader: the expansion after decryption IS the reader's merge (sort by container number, the
+   members the cross-reference table places in the container first, then the numbers still absent) of the blocks keyed by the
+   object numbers of the streams *)
+Theorem enc_expansion_as_reader c xc m base :
+  msorted m -> merge_in_order xc (expand_blocks c m) base = merge xc (expand_blocks c m) base.
+Proof. intro S. unfold merge. rewrite sort_blocks_id_le; [reflexivity | apply expand_keys_sorted, S]. Qed.
+
+(* hence, when no two object streams share their object number, the blocks could arrive in ANY order in front of the
+   reader's merge without changing the result *)
+Theorem enc_expansion_perm_invariant c xc m bl' base :
+  msorted m -> NoDup (map fst (expand_blocks c m)) -> Permutation bl' (expand_blocks c m) ->
+  merge xc bl' base = merge_in_order xc (expand_blocks c m) base.
+Proof.
+  intros S Hd P. rewrite (merge_sched_invariant xc (expand_blocks c m) bl' base Hd P). symmetry. apply enc_expansion_as_reader, S.
+Qed.
+
+(* decrypt_object does not move objects *)
+Lemma decrypt_all_keys c eid m : forall m', decrypt_all c eid m = Some m' -> map fst m' = map fst m.
+Proof.
+  induction m as [|[id o] m IH]; cbn [decrypt_all]; intros m' H; [inversion H; reflexivity|].
+  destruct (if match eid with Some e => oid_eqb id e | None => false end then Some o else c_dec c id o) as [o'|]; [|discriminate].
+  destruct (decrypt_all c eid m) as [r|]; [|discriminate]. inversion H; subst. cbn [map fst]. f_equal. apply IH. reflexivity.
+Qed.
+
+(* Document.objects of a loaded document is a BTreeMap: sorted by (number, generation), no id twice *)
+Lemma msorted_merge_members (ms : list member) : forall m : xmap, msorted m -> msorted (merge_members m ms).
+Proof.
+  induction ms as [|[i o] ms IH]; intros m S; cbn [merge_members]; [exact S|]. apply IH, msorted_or_insert, S.
+Qed.
+
+Lemma msorted_merge_rest (ms : list member) : forall m : xmap, msorted m -> msorted (merge_rest m ms).
+Proof.
+  induction ms as [|[i o] ms IH]; intros m S; cbn [merge_rest]; [exact S|]. apply IH.
+  destruct (has_number m (fst i)); [exact S | apply msorted_pinsert, S].
+Qed.
+
+Lemma keys_update {V} (m : list (oid * V)) id F : map fst (update m id F) = map fst m.
+Proof.
+  unfold update. rewrite map_map. apply map_ext. intros [i v]. cbn [fst snd]. destruct (oid_eqb i id); reflexivity.
+Qed.
+
+Lemma keys_fix_stream buf m id : map fst (fix_stream buf m id) = map fst m.
+Proof.
+  unfold fix_stream. destruct (lookup (strip m) id); [|reflexivity].
+  destruct (dereference (strip m) o) as [[rid ?]|]; [apply keys_update | reflexivity].
+Qed.
+
+Lemma keys_zero_pass buf zl : forall m, map fst (zero_pass buf zl m) = map fst m.
+Proof.
+  unfold zero_pass. induction zl as [|z zl IH]; intro m; cbn [fold_left]; [reflexivity|]. rewrite IH. apply keys_fix_stream.
+Qed.
+
+Lemma keys_strip m : map fst (strip m) = map fst m.
+Proof. unfold strip. rewrite map_map. reflexivity. Qed.
+
+Lemma load_seq_msorted f : msorted (d_objects (load_seq f)).
+Proof.
+  unfold load_seq, load_tail, msorted. cbn [d_objects]. rewrite keys_strip, keys_zero_pass.
+  unfold merge. apply msorted_merge_rest, msorted_merge_members, msorted_collect.
+Qed.
+
+Theorem enc_load_expansion_as_reader c f eid m :
+  decrypt_all c eid (d_objects (load_seq f)) = Some m ->
+  merge_in_order (f_compressed f) (expand_blocks c m) (unstrip m) = merge (f_compressed f) (expand_blocks c m) (unstrip m).
+Proof.
+  intro H. apply enc_expansion_as_reader. unfold msorted. rewrite (decrypt_all_keys _ _ _ _ H). apply load_seq_msorted.
+Qed.
+
+(* ---- example: an encrypted file with two object streams that both hold object 10, the cross-reference stream placing it in
+        the second; object 11 only in the first; object 12 in the first and, under generation 2, as a plain object.
+        "Decryption" reverses stream bodies and strings. ---- *)
+Definition xe_os : dict := [(bs "Type", OName (bs "ObjStm")); (bs "N", OInt 2); (bs "First", OInt 0); (bs "Length", OInt 2)].
+Definition xe_file : file :=
+  mkFile (bs "0123456789") (bs "1.5") [] [(bs "Size", OInt 13); (K_Encrypt, ORef 5 0); (bs "Root", ORef 1 0); (bs "ID", OArr [])] 12 true
+    [ mkEntry 1 100 (PObj (1, 0)%N (ODict [(bs "Lang", OStr (bs "SU-ne") false)]));
+      mkEntry 2 200 (PStm (2, 0)%N xe_os (bs "2c") None None);
+      mkEntry 3 300 (PStm (3, 0)%N xe_os (bs "3c") None None);
+      mkEntry 4 400 (PObj (12, 2)%N (OName (bs "New")));
+      mkEntry 5 500 (PObj (5, 0)%N (ODict [(bs "Filter", OName (bs "Standard"))])) ]
+    [(10, 3)%N].
+Fixpoint xe_dec_obj (o : obj) : obj :=
+  match o with
+  | OStr s h => OStr (rev s) h
+  | ODict d => ODict (map (fun kv => (fst kv, xe_dec_obj (snd kv))) d)
+  | OStream d ct => OStream d (rev ct)
+  | _ => o
+  end.
+Definition xe_crypt : crypt :=
+  mkCrypt true (fun _ o => Some (xe_dec_obj o))
+    (fun _ ct => if bytes_eqb ct (bs "c2") then Some [((10, 0)%N, OInt 1); ((11, 0)%N, OName (bs "A")); ((12, 0)%N, OName (bs "Old"))]
+                 else if bytes_eqb ct (bs "c3") then Some [((10, 0)%N, OInt 2)] else None).
+Definition xe_sched : sched := mkSched [2; 1] [] [].
+Definition lres_objects (r : lres) : objmap := match r with LDoc d => d_objects d | LErr => [] end.
+Definition lres_trailer (r : lres) : dict := match r with LDoc d => d_trailer d | LErr => [] end.
+
+Lemma enc_example_holds :
+  file_wf xe_file /\ sched_valid xe_file xe_sched /\
+  load_full_par xe_crypt xe_sched xe_file = load_full_seq xe_crypt xe_file /\
+  lookup (lres_objects (load_full_seq xe_crypt xe_file)) (1, 0)%N = Some (ODict [(bs "Lang", OStr (bs "en-US") false)]) /\
+  lookup (lres_objects (load_full_seq xe_crypt xe_file)) (2, 0)%N = Some (OStream xe_os (bs "c2")) /\
+  lookup (lres_objects (load_full_seq xe_crypt xe_file)) (10, 0)%N = Some (OInt 2) /\
+  lookup (lres_objects (load_full_seq xe_crypt xe_file)) (11, 0)%N = Some (OName (bs "A")) /\
+  lookup (lres_objects (load_full_seq xe_crypt xe_file)) (12, 0)%N = None /\
+  lookup (lres_objects (load_full_seq xe_crypt xe_file)) (12, 2)%N = Some (OName (bs "New")) /\
+  lookup (lres_objects (load_full_seq xe_crypt xe_file)) (5, 0)%N = None /\
+  lres_trailer (load_full_seq xe_crypt xe_file) = [(bs "Size", OInt 13); (bs "ID", OArr []); (bs "Root", ORef 1 0)].
+Proof.
+  split; [unfold file_wf; cbn; repeat split; repeat constructor; lia|].
+  split; [split; vm_compute; constructor|].
+  repeat split; vm_compute; reflexivity.
+Qed.
+
+(* the same file through the expansion as it was before /repo 959d50f: object 10 came from the first object stream although the
+   cross-reference stream places it in the second, and the superseded generation 0 of object 12 was loaded beside generation 2 *)
+Lemma enc_old_expansion_differs :
+  lookup (lres_objects (decrypt_doc_old xe_crypt (load_seq xe_file))) (10, 0)%N = Some (OInt 1) /\
+  lookup (lres_objects (decrypt_doc_old xe_crypt (load_seq xe_file))) (12, 0)%N = Some (OName (bs "Old")).
+Proof. split; vm_compute; reflexivity. Qed.
